@@ -411,11 +411,9 @@ where
     pub fn new(data: ArrayBase<Sd, D>) -> Self {
         let len = data.shape().first().copied().unwrap_or(0);
         Interp1DBuilder {
-            x: Array::from_iter((0..len).map(|n| {
-                cast(n).unwrap_or_else(|| {
-                    unimplemented!("casting from usize to a number should always work")
-                })
-            })),
+            // indices the element type can not represent are left out: `build` then reports
+            // the default axis as too short, and an axis set with `x()` replaces it anyway
+            x: Array::from_iter((0..len).map_while(|n| cast(n))),
             data,
             strategy: Linear::new(),
         }
